@@ -961,7 +961,11 @@ def run(ctx):
                 "bytes / bytearray / memoryview / str (ASCII and multi-byte text; non-ASCII text is judged by the oracle "
                 "only: bytes handed over == text.encode()), through sendall(_stderr) or ChannelFile/ChannelStderrFile "
                 "write+flush; several senders asleep on one channel; sendall behind the transport's re-key gate (open, "
-                "finishing, stalled, stalling midway) and across the transport's death, observed at the packetizer; "
+                "finishing, stalled, stalling midway) and across the transport's death, observed at the packetizer; end to "
+                "end over a real client/server Transport pair (in-memory sockets, real handshake and Packetizer): "
+                "transfers larger than the advertised window in both directions and streams with non-default "
+                "default_window_size / default_max_packet_size on either side (rotating by seed, all in thorough), and "
+                "a sendall placed inside the tear-down of a transport whose peer went away; "
                 "a case is "
                 "non-trivial when the data is non-empty and it needs >= 2 chunks, or raises, or has events")
     ctx.trusted += ["model coq/Model/C25.v is hand-written; tied to paramiko/channel.py (sendall, sendall_stderr, "
